@@ -490,11 +490,14 @@ fn run_one(c: &Case) -> Result<(), Failure> {
 			fx.init(*sr, 512);
 			let out = super::c13::process_with(&mut fx, *sr, &input, &whole(settle, 512), &info);
 			let last = pick(&out[settle - 1]);
-			if *level_db <= *threshold {
+			// (a level within a hundredth of a decibel of the threshold may land on either side of it in
+			// the compressor's f32 decibel arithmetic: there the gain may change by an ulp, and the
+			// steady-state formula below applies with its own tolerance)
+			if *level_db <= *threshold - 0.01 {
 				ensure!(out.iter().zip(input.iter()).all(|(o, i)| o == i), "compressor-transparent-below-threshold", "a signal at {level_db:.2} dB is changed by a compressor with threshold {threshold:.2} dB: {:?} -> {:?}", input[settle - 1], out[settle - 1]);
 			} else {
 				let reduction = db(a as f64) - db(last);
-				let want = (level_db - threshold) * (1.0 - 1.0 / ratio);
+				let want = (level_db - threshold).max(0.0) * (1.0 - 1.0 / ratio);
 				ensure!((reduction - want).abs() <= 0.05 + 0.002 * want.abs(), "compressor-steady-state-gain-reduction", "level {level_db:.2} dB, threshold {threshold:.2} dB, ratio {ratio:.3} (channel layout {layout}): gain reduction settles at {reduction:.4} dB, expected (level - threshold)(1 - 1/ratio) = {want:.4} dB");
 				// release time constant: the level drops below the threshold; after release_s the
 				// reduction has fallen to 1/e of what it was
